@@ -411,7 +411,11 @@ func (p *parser) readError(idl *IDL) (*Error, error) {
 	}
 
 	p.advanceOnLine()
+	start := p.position
 	e.Type = p.readType()
+	if e.Type == nil && p.position != start {
+		return nil, fmt.Errorf("invalid error type")
+	}
 
 	return e, nil
 }
